@@ -51,11 +51,19 @@ TEXT = {
           "binary-search membership, integer containment/counting. Proved for every ordered field (incl. R), all intervals: the 9-way "
           "comparison returns exactly the intersection (none iff disjoint) and names the true relation of the upper bounds; the "
           "intersection sweep denotes exactly the intersection of the operands for all lists of non-empty, increasing, disjoint "
-          "intervals; the interval membership test agrees with the denoted set. Union, status bits, normal form of results, integer "
-          "counts and picking are tied by correspondence only (exhaustive over all 128x128 normal-form sets on the atoms of {0,1,2}, "
-          "512x512 in the thorough tier, plus random pools with algebraic end points).",
+          "intervals; the interval membership test agrees with the denoted set. The union (concatenate, insertion sort by the 9-way "
+          "comparison, fuse pass) contains exactly the numbers of either operand for all lists of well-formed intervals (C13_union: the "
+          "sort key is a total preorder on lower bounds, the fuse decision is right in each of the nine classes) and is returned in normal "
+          "form - well-formed intervals, consecutive ones separated by a gap that cannot be closed (C13_union_nf; gap_sep: such a gap "
+          "separates the sets); membership by binary search agrees with the denoted set for every list in normal form and every finite "
+          "value (C13_contains, loop invariant over the array bounds); lp_interval_contains_int / lp_feasibility_set_contains_int answer "
+          "true exactly when an integer lies in the set (C13_containsInt, C13_set_containsInt, via floor / ceiling). Status bits, normal "
+          "form of intersections, integer counts, point / fullness tests and picking are tied by correspondence only (exhaustive over all "
+          "128x128 normal-form sets on the atoms of {0,1,2}, 512x512 in the thorough tier, plus random pools with algebraic end points, "
+          "half of them handed over with the unrefined isolating interval of the root isolation; pick / contains_int / count_int also on "
+          "every interval separately).",
   "design_ref": "5.13",
-  "note": "union/status/NF-of-result theorems not yet proved (kept as correspondence); algebraic end points enter the model as order-isomorphic dyadic surrogates chosen by the harness",
+  "note": "status bits, normal form of intersections, integer counts and value picking are correspondence only; algebraic end points enter the model as order-isomorphic dyadic surrogates chosen by the harness",
   "technique": "Lean 4 proof over mirror model + exhaustive/differential correspondence harness",
  },
  "C20": {
@@ -105,13 +113,16 @@ TEXT = {
  "C19": {
   "text": "Three clauses. (a) Reference counting: protocol model of rings/contexts and their holders with the invariant 'counter = number "
           "of live holders (directly or through a context)' PROVED in Lean for every history, hence an object is freed exactly when its "
-          "last holder goes; the C ref_count fields are compared with the model after every step of generated histories. (b) Output/"
+          "last holder goes; the C ref_count fields are compared with the model after every step of generated histories. The histories "
+          "include holders that MOVE their reference (RefOp.retarget): an external polynomial that holds context c written by one of 21 "
+          "output operations whose inputs live in context c2 (result compared with a fresh output, context of the result checked), and "
+          "lp_upolynomial_set_ring; a variable-database family checks that ids stay distinct and names retrievable. (b) Output/"
           "alias independence: the models of C17/C15/C01 are functions of the inputs only, and every scalar, interval and polynomial "
           "operation is replayed with pre-used destinations of other shapes and with destinations aliasing an input; a violation class "
           "is attributed to C19 only if it does not also occur with fresh outputs. (c) Memory safety: all these runs and the set/container "
           "histories execute under ASan+UBSan+LSan with a per-case watchdog; any report, crash, hang or leak is a violation.",
   "design_ref": "5.19",
-  "note": "clause (c) is runtime monitoring on generated inputs, not proof (no executable Lean model can exhibit out-of-bounds access); variable_db/variable_order counters are opaque and observed only via sanitizers",
+  "note": "clause (c) is runtime monitoring on generated inputs, not proof (no executable Lean model can exhibit out-of-bounds access); variable_db/variable_order counters are opaque and observed only via sanitizers; found and fixed through the moving-holder histories: lp_polynomial_swap reference accounting, lp_polynomial_neg / lp_polynomial_resultant output context, lp_upolynomial_set_ring use-after-free, lp_variable_db_add_variable size, external mark lost by lp_polynomial_constraint_resolve_fm",
   "technique": "Lean 4 invariant proof (refcount protocol) + correspondence with aliased/pre-used outputs + sanitizer monitoring",
  },
  "C05": {
@@ -170,7 +181,9 @@ TEXT = {
   "text": "lp_polynomial_constraint_get_feasible_set and lp_polynomial_root_constraint_get_feasible_set are compared interval by interval "
           "(end points by the proved exact comparison, strictness flags literally, number of intervals = normal form) with the model: "
           "exact roots (C11), exact signs of the specialised polynomial at rational sample points of the 2n+1 cells (C10), sweep of the "
-          "maximal runs of satisfied cells; all six sign conditions, both polarities, root indices 0..deg+1. Proved: the negation table "
+          "maximal runs of satisfied cells; all six sign conditions, both polarities, root indices 0..deg+1; the truth-value evaluator "
+          "lp_polynomial_root_constraint_evaluate is called with the main variable assigned to the roots, points between them, outer "
+          "points and random values and compared with consistent(cond, cmp(value, root_k)) (false with fewer roots). Proved: the negation table "
           "(C12_negate) and, for every root value, index, condition, polarity and real v, membership in the model's root-constraint set "
           "iff the (possibly negated) condition holds for sign(v - root_k), false / true everywhere with fewer roots "
           "(C12_root_constraint); and the sweep is exact: for strictly increasing roots and any satisfaction vector of the 2n+1 cells, a "
@@ -199,7 +212,8 @@ TEXT = {
           "through the iterated elimination (eliminant_root)); the six sign conditions (C10_consistent). Values are accepted only through the "
           "proved root selection (C07_select_sound). Generator: algebraically dependent tuples (sqrt2, sqrt3, sqrt6; conjugates; cubic "
           "roots), exact zeros, near zeros (zero + 1 scaled by up to 2^40), vanishing leading coefficients, a family stressing the "
-          "root-separation bound of the C zero test, 20% under the reversed variable order.",
+          "root-separation bound of the C zero test, 20% under the reversed variable order. After every query the assignment is read "
+          "again (ev keep): every value must be well-formed and compare equal (exact comparison) to what it was before.",
   "design_ref": "5.10",
   "note": "elimination steps of Sylvester order > 8 are skipped and counted (only certified non-zero signs are judged there); the D21 hypothesis (root lower bound) did not manifest end-to-end in 8000 targeted cases",
   "technique": "Lean 4 proved exact-sign procedure (validator) + per-output validation of the C results",
